@@ -1,7 +1,7 @@
 (* C13 — Optimize drops only unreachable definitions; RemoveStyling drops only styling. *)
 From Coq Require Import List ZArith NArith.
 From Astisub Require Import Kit.Base Model.Ops Proofs.OptimizeProofs.
-From Astisub Require Kit.Str Kit.Xml Kit.XmlParse Model.Ttml Model.TtmlOpt Proofs.TtmlDocSpec Proofs.TtmlOptProofs.
+From Astisub Require Kit.Str Kit.Xml Kit.XmlParse Model.Ttml Model.TtmlOpt Proofs.TtmlDocSpec Proofs.TtmlOptProofs Model.TtmlGo Proofs.TtmlGoProofs.
 Import ListNotations.
 
 (* a list with at least one cue: a style definition survives iff its identifier is reachable from a
@@ -79,7 +79,7 @@ Print Assumptions C13_remove_styling.
    In a module of its own because Model/Ttml.v and Model/Ops.v share record and constructor names. ---- *)
 Module C13_TTML.
 Import Astisub.Kit.Str Astisub.Kit.Xml Astisub.Kit.XmlParse Astisub.Model.Ttml Astisub.Model.TtmlOpt
-  Astisub.Proofs.TtmlDocSpec Astisub.Proofs.TtmlOptProofs.
+  Astisub.Proofs.TtmlDocSpec Astisub.Proofs.TtmlOptProofs Astisub.Model.TtmlGo Astisub.Proofs.TtmlGoProofs.
 Theorem C13_ttml_styles_exact : forall d kv, td_items d <> [] ->
   In kv (td_styles (ttml_optimize d)) <-> In kv (td_styles d) /\ topt_reach_style d (ts_id (snd kv)).
 Proof. exact ttml_optimize_styles_exact. Qed.
@@ -93,14 +93,16 @@ Theorem C13_ttml_repr : forall d, repr_doc d = true -> repr_doc (ttml_optimize d
 Proof. exact ttml_optimize_repr. Qed.
 (* "the optimized list can still be written and read back with the same cues as before", for TTML, through bytes:
    writer bytes, XML parser model, reader, for every indent option made of white space *)
-Theorem C13_ttml_write_read : forall d ind, repr_doc d = true -> indent_ok ind = true ->
+Theorem C13_ttml_write_read : forall d ind, repr_doc d = true -> legal_doc d = true -> indent_ok ind = true ->
   exists b t b' t',
-    write_ttml_bytes ind d = Ok b /\ xml_parse b = Some t /\ read_ttml t = Ok (written_value d) /\
-    write_ttml_bytes ind (ttml_optimize d) = Ok b' /\ xml_parse b' = Some t' /\
+    write_ttml_bytes_go ind d = Ok b /\ xml_parse b = Some t /\ read_ttml t = Ok (written_value d) /\
+    write_ttml_bytes_go ind (ttml_optimize d) = Ok b' /\ xml_parse b' = Some t' /\
     read_ttml t' = Ok (written_value (ttml_optimize d)) /\
     td_items (written_value (ttml_optimize d)) = td_items (written_value d) /\
     td_meta (written_value (ttml_optimize d)) = td_meta (written_value d).
-Proof. exact ttml_optimize_cues. Qed.
+Proof. exact ttml_optimize_cues_go. Qed.
+(* ([write_ttml_bytes_go]: the bytes as Go's encoder writes them; [legal_doc]: every string XML-legal - otherwise the
+   encoder substitutes U+FFFD and the text read back differs; legality survives Optimize: [ttml_optimize_legal]) *)
 Example C13_ttml_example : repr_doc topt_ex_doc = true /\ repr_doc (ttml_optimize topt_ex_doc) = true.
 Proof. split; vm_compute; reflexivity. Qed.
 End C13_TTML.
@@ -202,3 +204,22 @@ Print Assumptions C13_rs_order.
 Print Assumptions C13_rs_text.
 Print Assumptions C13_rs_voices.
 Print Assumptions C13_rs_idempotent.
+
+(* ---- second audit, N13: what [wf_refs] says, exactly, and what it cannot say ----
+   [wf_refs s] is a statement about IDENTIFIERS only:
+     (1) every style identifier referred to by a cue or by one of its runs is the ID of some style definition of s;
+     (2) every region identifier referred to by a cue is the ID of some region definition of s;
+     (3) the style identifier of every region definition is the ID of some style definition;
+     (4) the parent identifier of every style definition is the ID of some style definition;
+     (5) the IDs of the style definitions are pairwise distinct.
+   It does not say - and the model cannot say, because it identifies a reference with the identifier of its target - that
+   the OBJECT a pointer leads to is the one stored in the map for that identifier.  The comment above ("under wf_refs ...
+   the two readings coincide") therefore overstated: the readings coincide under wf_refs AND the heap hypothesis that every
+   pointer (cue -> style, run -> style, cue -> region, region -> style, style -> parent) targets the map's own entry for its
+   identifier.  On a heap that violates it (an "aliased" style object: same ID, another parent link) the library walks the
+   pointed object's parents while the stored definition with that ID keeps its own parent link: Optimize then deletes a
+   parent that a kept definition still refers to.  That case has no model (the harness encodes references by ID); it is
+   exercised by the oracle-only suite optimize.alias (harness/ops5.go) with the property's own oracle "every reference
+   left in the list still resolves", which the library FAILS there - recorded as finding optimize-aliased-style-object
+   (known_findings.json) with the minimal input: styles {k0, k1 -> k0}, one cue whose style is another object with ID k1
+   and no parent; after Optimize the stored k1 still points to the deleted k0. *)
